@@ -315,7 +315,11 @@ def read_behaviour_file(path):
     ms = list(_STATE_HDR.finditer(txt))
     out = []
     for j, m in enumerate(ms):
-        end = ms[j + 1].start() if j + 1 < len(ms) else txt.rfind("=====")
+        if j + 1 < len(ms):
+            end = ms[j + 1].start()
+        else:
+            mm = re.search(r'\n=+\s*$', txt)
+            end = mm.start() if mm else len(txt)
         body = txt[m.end():end].strip()
         label = m.group(1)
         am = re.match(r'(\w+)(\((.*)\))? line ', label)
@@ -427,3 +431,29 @@ def edge_tours(g, max_len=12, rng=None, max_tours=None, want_edge=None):
         if max_tours and len(tours) >= max_tours:
             break
     return tours
+
+
+# --------------------------------------------------------------------------
+# counterexample printed by TLC on stdout -> behaviour (list of {action, state})
+# --------------------------------------------------------------------------
+_ERRSTATE = re.compile(r'^State (\d+): <?([^\n>]*)>?\n', re.M)
+
+
+def parse_error_trace(out):
+    ms = list(_ERRSTATE.finditer(out))
+    beh = []
+    for j, m in enumerate(ms):
+        end = ms[j + 1].start() if j + 1 < len(ms) else len(out)
+        body = out[m.end():end]
+        # the body ends at the first blank line
+        k = body.find("\n\n")
+        if k >= 0:
+            body = body[:k]
+        try:
+            st = parse_state(body)
+        except ValueError:
+            break
+        label = m.group(2)
+        am = re.match(r'(\w+)', label)
+        beh.append({"action": am.group(1) if am else label, "args": "", "state": st})
+    return beh
